@@ -1,6 +1,7 @@
 use crate::engine::{ReplayEntry, Run};
 
 pub mod c01;
+pub mod c02;
 pub mod c03;
 pub mod c05;
 pub mod c08;
@@ -22,6 +23,7 @@ pub struct Property {
 pub fn all() -> Vec<Property> {
     vec![
         Property { id: "C01", run: c01::run, replays: c01::replays },
+        Property { id: "C02", run: c02::run, replays: c02::replays },
         Property { id: "C03", run: c03::run, replays: c03::replays },
         Property { id: "C05", run: c05::run, replays: c05::replays },
         Property { id: "C08", run: c08::run, replays: c08::replays },
